@@ -4,6 +4,7 @@ import importlib, json, os, sys
 REGISTRY = {
     "C01": "engines.scheme_sim",
     "C03": "engines.dimwise_checks",
+    "C04": "engines.dimwise_checks",
     "C06": "engines.dimwise_checks",
 }
 
